@@ -46,7 +46,7 @@ func c14Specs() []*edt.Spec {
 				"(len($out) == 0)":              "outZero",
 				"(65535 < len($out))":           "outTooLong",
 				"(255 < len($domainSeparator))": "dstOversize",
-				"(255 < (((len($out) + Hash.Size($hFunc)) - 1) / Hash.Size($hFunc)))": "ellTooBig", // ell = ceil(len/b) > 255
+				"(255 < (((Hash.Size($hFunc) + len($out)) - 1) / Hash.Size($hFunc)))": "ellTooBig", // ell = ceil(len/b) > 255
 				"(Hash.Size($hFunc) < len($out))":                                     "needMore",
 				"(0 < φL0.2)":                                                         "wantMore",
 				"(Hash.Size($hFunc) < φL0.2)":                                         "fullChunk",
